@@ -173,7 +173,9 @@ def install_diff_axiom(reg):
             if isinstance(bound.get(extra), Arr):
                 dt = result_type(dt, bound[extra].dtype)
         out = Arr(shp(a.shape), lambda i: numpy_diff_column(t, i), "real", dt, Region("fresh"))
-        ex.__dict__.setdefault("diff_calls", []).append(dict(col=cv, bound=bound))
+        hook = getattr(ex, "hooks", {}).get("on_numpy_diff") if isinstance(getattr(ex, "hooks", None), dict) else None
+        if hook:
+            hook(ex, dict(col=cv, bound=bound), node)        # the contract checks the call where it happens (also inside a cut loop)
         return out
 
 
@@ -398,12 +400,29 @@ class Diff(Contract):
                 ps = sym_polys(ex, n_ops, broadcast=False)
                 ex.inputs = ps
                 ex.ghost = {}
-                ex.hooks = {"after_align": lambda ex_, res: ex_.ghost.update(aligned=list(res))}
                 ex.n, ex.axis = Tok("n"), Tok("axis")
                 it = iter(ps[1:])
                 app = next(it) if with_app else None
                 pre = next(it) if with_pre else None
                 ex.app, ex.pre = app, pre
+
+                def on_diff(ex_, c, node, with_app=with_app, with_pre=with_pre):
+                    al = ex_.ghost.get("aligned")
+                    if with_app or with_pre:
+                        A = al[0] if al else None
+                        APP = al[1] if (al and with_app) else None
+                        PRE = al[1 + with_app] if (al and with_pre) else None
+                    else:
+                        A, APP, PRE = ex_.inputs[0], None, None
+                    p_, t_ = c["col"]
+                    b = c["bound"]
+                    good = A is not None and p_ is A and b.get("n") is ex_.n and b.get("axis") is ex_.axis
+                    ap, pr = b.get("append"), b.get("prepend")
+                    good = good and ((ap is None) if APP is None else (getattr(ap, "colview", (None, None))[0] is APP and getattr(ap, "colview")[1] is t_))
+                    good = good and ((pr is None) if PRE is None else (getattr(pr, "colview", (None, None))[0] is PRE and getattr(pr, "colview")[1] is t_))
+                    ex_.oblige(ex_.site("numpy.diff") + ".gets_the_columns_of_one_term_and_the_user_arguments", z3.BoolVal(bool(good)), "post", node,
+                               note="column t of a (and of append / prepend, aligned to the same terms) with n and axis forwarded")
+                ex.hooks = {"after_align": lambda ex_, res: ex_.ghost.update(aligned=list(res)), "on_numpy_diff": on_diff}
                 return {"a": ps[0], "n": ex.n, "axis": ex.axis, "prepend": pre, "append": app}
 
             def check(out, with_app=with_app, with_pre=with_pre):
@@ -437,15 +456,6 @@ class Diff(Contract):
                 Cs = V.as_seq(ex, fa["C"])
                 ex.oblige("post.every_column_is_numpy_diff_of_the_columns_of_its_term", ctx.forall_range(0, A.N, lambda t: ctx.forall_idx(
                     lambda i: z3.And(Cs.item(t).init(i), Cs.item(t).elem(i) == numpy_diff_column(t, i)), src.shape)), "post")
-                calls = getattr(ex, "diff_calls", [])
-                good = bool(calls)
-                for c in calls:
-                    p_, t_ = c["col"]
-                    b = c["bound"]
-                    good = good and p_ is A and b.get("n") is ex.n and b.get("axis") is ex.axis
-                    ap, pr = b.get("append"), b.get("prepend")
-                    good = good and ((ap is None) if APP is None else (getattr(ap, "colview", (None, None))[0] is APP and getattr(ap, "colview")[1] is t_))
-                    good = good and ((pr is None) if PRE is None else (getattr(pr, "colview", (None, None))[0] is PRE and getattr(pr, "colview")[1] is t_))
                 from engine.polymodel import result_type
                 want = A.dtype
                 for q in (PRE, APP):
@@ -453,8 +463,6 @@ class Diff(Contract):
                         want = result_type(want, q.dtype)
                 ex.oblige("post.dtype_is_that_of_the_differenced_columns", src.dtype == want, "post",
                           note="with prepend/append of another dtype numpy promotes; the result must carry that dtype")
-                ex.oblige("post.numpy_diff_gets_the_columns_of_one_term_and_the_user_arguments", z3.BoolVal(bool(good)), "post",
-                          note="column t of a (and of append / prepend, aligned to the same terms) with n and axis forwarded")
                 ex.oblige("post.fresh", z3.BoolVal(r.region.owner == "fresh"), "post")
             yield Case(label, make_env, check, loops=self._loops())
 
